@@ -31,8 +31,12 @@ RULE = ('Hypothesis-generated cases = (backend configuration, short prior histor
         'at the raw write(2)/rename/unlink/... layer; EVERY prefix of the op list and every cut of a write at a '
         '4096-byte file-offset boundary is materialised from the pre-state snapshot and read back by a fresh cache '
         'object (each address in {old bytes, new bytes}, missing only where the property allows it, other addresses '
-        'unchanged, no exception), then the same store is repeated on the crashed directory (must succeed despite '
-        'stale lock / temp files and yield the new content).  One evaluation = one crash state.  A crash state is '
+        'unchanged, no exception).  Then, on copies of that crashed directory, a restarted process (fresh object) '
+        '(a) stores a DIFFERENT address of the same bundle / directory, (b) overwrites a prior address that is not '
+        'part of the store (compact: preferably in a bundle the store writes to) - everything that was visible right '
+        'after the crash must read the same afterwards, the follow-up address its new bytes - and (c) repeats the '
+        'same store (must succeed despite stale lock / temp files and yield the new content).  Continuations run on '
+        'every crash state of the file and compact caches (counted in notes).  One evaluation = one crash state.  A crash state is '
         'non-trivial when the crash index lies strictly inside the op list (or is a torn write) of a case whose '
         'store overwrites existing content or writes into an already existing bundle; distinct = distinct '
         '(case, crash index, cut).  Byte-granular cuts are explored too but only counted (beyond-model notes).')
